@@ -4,6 +4,10 @@ TB = ("Trusted: Lean 4.33 kernel (axioms at most propext, Classical.choice, Quot
       "the hand-written model, tied to the code only by the correspondence run (differential testing of the model's executable definitions against the real crate on generated and enumerated inputs); "
       "SHA-256 as a free term algebra. ")
 TEXT = {
+    "C11": {
+        "text": "Theorems on the authorisation decision for every request and server state: for an existing account `allow` iff the header names it, the token is well formed, the access lists do not exclude it and a currently trusted key signed exactly the authenticated bytes; unsigned/malformed refused; unknown, revoked, other-bytes and other-account signatures refused; a revoked key leaves the trusted set; deny-listed / not-allow-listed accounts refused on every endpoint; decide-checked over the route table regenerated from the source: every account/event/file route calls authenticate_endpoint, and which body-carrying routes do not sign their body (finding). Tie: the finite product route x credential form x access config x before/after revocation is enumerated completely against a live in-process server on loopback; status class and server state before/after must match the model.",
+        "note": TB + "Modelled rather than verified: Ed25519 (symbolic), axum extractors, TLS.",
+    },
     "C01": {
         "text": "Theorems on the folder model for all histories: a created (fresh id) or updated secret reads back exactly what was written, other secrets are untouched, a deleted secret is absent, listing = readable ids, a moved secret is in exactly one folder, and rebuilding from the persisted log gives the same answers (through C02's invariant). Tied to the real LocalAccount on both backends by generated histories with a served-vs-recorded oracle after every step, sign-out/sign-in and fresh-instance sign-in, and by replaying the default folder's operations on the model.",
         "note": TB + "Modelled rather than verified: encryption (content tokens), the vault mirror (equal to the served vault), sqlite/file system.",
